@@ -107,13 +107,13 @@ pub fn check_round(c: &RoundCase) -> Verdict {
         k as usize >= digits.len() || digits[digits.len() - k as usize..].bytes().any(|b| b != b'0')
     };
     let mut v = Verdict::pass(discards);
-    let nd = c.d.ndigits() as i64;
-    let lead_scale = c.d.scale - nd; // target scale at which everything is discarded
+    let nd = c.d.ndigits() as i128;
+    let lead_scale = c.d.scale as i128 - nd; // target scale at which everything is discarded
     v.labels.push(if c.new_scale >= c.d.scale {
         "extend-or-same"
-    } else if c.new_scale < lead_scale {
+    } else if (c.new_scale as i128) < lead_scale {
         "target-left-of-leading-digit"
-    } else if c.new_scale == lead_scale {
+    } else if c.new_scale as i128 == lead_scale {
         "target-at-leading-digit"
     } else {
         "target-inside"
